@@ -619,5 +619,5 @@ func runC18(r *Run) {
 	runC18Doh(r)
 	// ---------- (6) upstreams created from the forward plugin's configuration
 	runC18Fwd(r)
-	r.Finish("address grammar {scheme} x {IPv4, [IPv6], bare IPv6, hostname} x {no port, 1..65535, >65535} x {no dial_addr, IP, IP:port, [IPv6]:port, bare IPv6} x {path}; helper functions on every component string plus hand-picked malformed strings plus random strings over `[]:.a1%/ `; black box via a SOCKS5 observer (CONNECT target, TLS ClientHello SNI; dial_addr also as name / name:port; Opt.Bootstrap set to a server that answers every name in half of the cases - the CONNECT target stays the name written) and loopback UDP; forward plugins built from configuration (NewForward / Init) with 2..4 entries that share their addr and differ in dial_addr (all six forms), share both, or neither, stream entries through a plugin-wide or per-entry SOCKS5 observer with or without a plugin-wide bootstrap server, UDP entries to loopback listeners, one query routed to one entry by tag and attributed by its question name (plain TCP, UDP) or, for TLS, by the window of a call that ended by itself; groups of 2..4 upstreams created in one process on host names resolved through Opt.Bootstrap (fake bootstrap server, one loopback address per name, TCP and UDP listeners on a shared set of ports; same name with equal and different ports, tls / tls+pipeline / https / quic / h3, port in the URL or in dial_addr name:port, bootstrap version 0/4/6), each connection attributed by ALPN tag or UDP source port and required to reach its own upstream's name and port; the https / h3 matrix {IPv4, [IPv6], bare IPv6, host name} x {port, none} x {dial_addr 127.0.0.1:p / [::1]:p, none = SOCKS5 observer splicing to the server} x {path} against real DoH servers on loopback (HTTP/2 over TLS attributed by ALPN tag, one HTTP/3 server per case), per-case certificate valid for exactly the URL host, verified or unverified: server name (host-name mismatch error, SNI), Host / :authority, CONNECT target / dial_addr listener; non-trivial = input contains a bracket or colon / every black-box case")
+	r.Finish("address grammar {scheme} x {IPv4, [IPv6], bare IPv6, hostname} x {no port, 1..65535, >65535} x {no dial_addr, IP, IP:port, [IPv6]:port, bare IPv6} x {path}; helper functions on every component string plus hand-picked malformed strings plus random strings over `[]:.a1%/ `; black box via a SOCKS5 observer (CONNECT target, TLS ClientHello SNI; dial_addr also as name / name:port; Opt.Bootstrap set to a server that answers every name in half of the cases - the CONNECT target stays the name written) and loopback UDP; forward plugins built from configuration (NewForward / Init) with 2..4 entries that share their addr and differ in dial_addr (all six forms), share both, or neither, stream entries through a plugin-wide or per-entry SOCKS5 observer with or without a plugin-wide bootstrap server, UDP entries to loopback listeners, one query routed to one entry by tag and attributed by its question name (plain TCP, UDP) or, for TLS, by the window of a call that ended by itself; groups of 2..4 upstreams created in one process on host names resolved through Opt.Bootstrap (fake bootstrap server, one loopback address per name, TCP and UDP listeners on a shared set of ports; same name with equal and different ports, tls / tls+pipeline / https / quic / h3, port in the URL or in dial_addr name:port, bootstrap version 0/4/6), each connection attributed by ALPN tag or UDP source port and required to reach its own upstream's name and port; the https / h3 matrix {IPv4, [IPv6], bare IPv6, host name} x {port, none} x {dial_addr 127.0.0.1:p / [::1]:p, none = SOCKS5 observer splicing to the server} x {path} against real DoH servers on loopback (HTTP/2 over TLS attributed by ALPN tag, one HTTP/3 server per case), per-case certificate valid for exactly the URL host, verified or unverified, a third of the cases with the port written out as the scheme default 443 / another scheme's default / a neighbour for every host form, half of the IPv6 hosts ending in a decimal group: server name (host-name mismatch error, SNI), Host / :authority, CONNECT target / dial_addr listener; non-trivial = input contains a bracket or colon / every black-box case")
 }
